@@ -9,7 +9,8 @@ MODULES = [
  ("CoseStruct.tla", "envelope shapes per kind, `WFCose` (C05), `Conforming` (C07), `Sig1Structure`, `SigStructure`, `CountersignStructure`, `TbsOf`/`SigBytesOf`/`SignerProtOf` over wire bytes, `ReencodePrediction` and `ClearedPrediction` (C09)"),
  ("GoValues.tla", "dynamic-type model of Go header values (10 integer types, Algorithm, string, []byte, nil []byte, []any, map, bool, nil, countersignature objects, simple, invalid kinds), `ToItem`, `InModel`, `ImageOf(kind, message)`"),
  ("CoseSystem.tla", "in-memory layers: `LayerProtItem` (raw bytes preferred), `AlgOfBucket` (lookup by label value), `AlgEq`, `WireAlgIs`, spy-call helpers"),
- ("CoseModel.tla", "life cycle of a Sign1 object as a state machine (`Step`): sign, verify, marshal, unmarshal, caller edits, bytes rewritten in transit; symbolic keys/signatures; nine properties model-checked"),
+ ("CoseModel.tla", "life cycle of a Sign1 / untagged Sign1 / standalone Signature object as a state machine (`Step`): sign, verify, marshal, unmarshal, caller edits, bytes rewritten in transit; symbolic keys/signatures; nine properties model-checked"),
+ ("CsModel.tla", "life cycle of a countersignature (RFC 9338): parent, countersignature object, abbreviated bytes, wire; making (full/abbreviated), verifying, attaching, serialising, parsing, caller edits, bytes rewritten in transit, moving signature bytes between the two forms; nine properties model-checked (core scope exhaustively, full scope to a bounded number of steps)"),
  ("CoseKey.tla", "COSE_Key: `AcceptedKeyOK`, `SizesOK`, `CurveOKFor`, `DeriveAlg`, `SignerAllowed`, `VerifierAllowed`"),
  ("CoseCrypto.tla", "`NewSignerVerdict` / `NewVerifierVerdict` decision tables, `HashOf`, `RenderRS` / `I2OSP`"),
  ("Mutations.tla, CoseBases.tla", "structural mutation operators (Appendix B), valid re-spellings, base message trees"),
@@ -22,24 +23,24 @@ MODULES = [
 PIPE = {
  "C01": "Gen_C01 -> memflow -> Trace_C01",
  "C02": "Gen_Wire(respell) -> wireflow -> Trace_Wire[C02]; Gen_C02Mem -> memflow -> Trace_C02Mem",
- "C03": "Gen_Wire(mut) -> wireflow -> Trace_Wire[C03]; CoseModel MC + Gen_Model -> memflow -> Trace_Model[C03:]",
- "C04": "Gen_C04 -> memflow -> Trace_C04; CoseModel stage [C04:]",
+ "C03": "Gen_Wire(mut) -> wireflow -> Trace_Wire[C03]; CoseModel MC + Gen_Model -> memflow -> Trace_Model[C03:]; CsModel stage [C03:]",
+ "C04": "Gen_C04 -> memflow -> Trace_C04; CoseModel stage [C04:]; CsModel stage [C04:]",
  "C05": "Gen_C05 (+ byte-mutation driver) -> C05 exec (all five decoders) -> Trace_C05",
  "C06": "Gen_C05 + Gen_C15 + Gen_C13 images + byte-mutation driver -> nopanic -> Trace_C06",
  "C07": "Gen_Wire(respell) -> wireflow -> Trace_Wire[C07]",
- "C08": "Gen_C08 + Gen_C13 -> hdrgrid (6 encodings x 2 processes) -> Trace_C08",
- "C09": "Gen_Wire(respell) -> wireflow -> Trace_Wire[C09]; CoseModel stage [C09:]",
- "C10": "Gen_C10 -> memflow -> Trace_C10",
+ "C08": "Gen_C08 + Gen_C13 -> hdrgrid (6 encodings x 2 processes) -> Trace_C08; Gen_C08Seq + Gen_C12 producers -> memflow -> Trace_C08Seq",
+ "C09": "Gen_Wire(respell) -> wireflow -> Trace_Wire[C09]; CoseModel stage [C09:]; CsModel stage [C09:]",
+ "C10": "Gen_C10 -> memflow -> Trace_C10; CsModel MC + Gen_Cs -> memflow -> Trace_Cs[C10:]",
  "C11": "Gen_C11 -> memflow -> Trace_C11",
- "C12": "Gen_C12 -> memflow -> Trace_C12",
+ "C12": "Gen_C12 -> memflow (+ sessions: one world, one verifier) -> Trace_C12",
  "C13": "Gen_C13 -> hdrgrid -> Trace_C13",
  "C14": "Gen_C14 (toy-field MC + fixtures) + keyrt driver -> keyrt -> Trace_C14",
  "C15": "Gen_C15 -> keydec -> Trace_C15",
  "C16": "Gen_C16 -> ecdsa-render / ecdsa-native / ecdsa-accept -> Trace_C16",
  "C17": "Gen_C17 -> factory / digest -> Trace_C17",
  "C18": "Gen_C18 (thread model MC, schedules) -> conc (gated goroutines); Gen_C18Seq -> memflow; racestress under -race -> Trace_C18",
- "C19": "Gen_C19 -> memflow -> Trace_C19; CoseModel stage [C19:]",
- "C20": "Gen_C20 -> memflow -> Trace_C20; CoseModel stage [C20:]",
+ "C19": "Gen_C19 -> memflow -> Trace_C19; CoseModel stage [C19:]; CsModel stage [C19:]",
+ "C20": "Gen_C20 -> memflow -> Trace_C20; CoseModel stage [C20:]; CsModel stage [C20:]",
 }
 
 
@@ -111,14 +112,20 @@ def main():
             "* `keydec`, `keyrt`: COSE_Key decoder grid and key round trips. `factory`, `digest`, `ecdsa-*`: factories, digest entry points, ECDSA renderings. `conc`, `racestress`: gated schedule replay (GOMAXPROCS(1), callbacks as yield points) and ungated stress for `-race`. `nopanic`: all 9 decoding entry points and follow-ups under `recover()` and a deadline.",
             "* Fixtures: `/verif/fixtures/keys.json` (RSA 1024/2047/2048/3072; EC scalars per curve with full, 1- and 2-byte-short x / y and tiny d; Ed25519 seeds), verified at load.", ""]
     sec += ["### 13.4 Seeded changes and which check catches which", "",
-            "79 changes to go-cose that break a property while compiling and passing the repository's 809 tests, each written by a fresh sub-agent that saw only the property text and a scratch "
-            "worktree (round 1, suffix a/b: pinned tree, 3 re-based by hand onto the repaired tree, 1 dropped because the nil-bstr repair neutralised it; round 2, suffix c/d: repaired tree, asked for subtler changes). "
+            "119 changes to go-cose that break a property while compiling and passing the repository's 809 tests, each written by a fresh sub-agent that saw only the property text and a scratch "
+            "worktree (round 1, suffix a/b: pinned tree, 3 re-based by hand onto the repaired tree, 1 dropped because the nil-bstr repair neutralised it; round 2, suffix c/d, and round 3, suffix e/f: "
+            "repaired tree, asked for subtler changes that a grid over inputs would not see: state kept between calls, values with their own encoders, first-call effects, pointer/value paths). "
             "Each was confirmed here (demo fails with the patch, passes without, suite passes with it: `tools/validate_mutants.sh`) and is kept as `seeded/<id>/{patch.diff, demo_test.go, meta.json}`. "
-            "`tools/matrix.sh` applies each to a scratch worktree and runs the owning property's quick check (`VERIF_REPO`); `/repo` itself is never modified. "
-            "After round 1 three were missed and after round 2 twelve; every miss led to a strengthening of the generator or judge of the owning property (recorded in the git history of `/verif`: "
-            "size-class bases 23/24/255/256, countersignature lists of 1/3/4 and of distinct entries, `ClearedPrediction`, signature renderings `lead`/`padhalves`/`midzero`, alg/curve cross pairings, "
-            "memory-side Sig_structure check up to 65 536 bytes, output-buffer aliasing probe, empty non-nil signatures, CBOR simple values, unreduced / negative public points, built-in signers in the race stress, "
-            "verifier identity in C20, dirty-destination key decoding, zero-padded and double-length key coordinates).", "",
+            "`tools/matrix_par.sh` applies each to a scratch worktree and runs the owning property's quick check (`VERIF_REPO`); `/repo` itself is never modified. "
+            "Missed by the owning check when first run: 3 of round 1, 12 of round 2, 14 of round 3 (8 of those 14 were caught by a sibling property's check). Every miss led to a strengthening of the "
+            "generator or judge of the owning property (git history of `/verif`). Round 1/2: size-class bases 23/24/255/256, countersignature lists of 1/3/4 and of distinct entries, `ClearedPrediction`, "
+            "signature renderings `lead`/`padhalves`/`midzero`, alg/curve cross pairings, memory-side Sig_structure check up to 65 536 bytes, output-buffer aliasing probe, empty non-nil signatures, CBOR "
+            "simple values, unreduced / negative public points, built-in signers in the race stress, verifier identity in C20, dirty-destination key decoding, zero-padded and double-length key coordinates. "
+            "Round 3: header maps with dozens of entries and nil maps (C01), non-minimal `body_protected` argument and hash envelopes on the wire side (C02), countersignature life-cycle model `CsModel` (C03, C10), "
+            "caller-supplied raw protected bytes without alg (C04), encode-edit-encode sequences and helper outputs (C08), nil / null / junk signature slots and non-canonical signer headers (C11), reserved hash id 0 "
+            "and verification *sessions* - the same cases again in one world with one verifier value, so that state kept between calls shows (C12), Go values with an encoding of their own such as "
+            "`cbor.RawMessage` (C13), shared values that have not been through any call before the threads start (C18). After these, every one of the 119 changes is reported by its owning property's quick check; "
+            "the table lists the reasons printed (first two), and sibling checks that were confirmed to report it as well.", "",
             "| id | change | outcome of the owning property's quick check |", "|---|---|---|"]
     sec += matrix_rows()
     sec += ["", "---------------------------------------------------------------------------", "", ""]
